@@ -425,7 +425,7 @@ pub fn run(args: &Args) {
 /// Built-ins over arrays, strings and objects of every size 0..=130 and around the powers of
 /// two up to 1024 (strategy switches at size thresholds), against the reference functions.
 fn size_sweep(rep: &mut Report, args: &Args, ev: &Evaluator, strict: &Opts) {
-    const EXPRS: [&str; 48] = [
+    const EXPRS: [&str; 54] = [
         // by-functions inside the key expression of by-functions (re-entrancy of whatever they keep between elements)
         "sort_by(groups, &sort_by(members, &age)[0].age)[*].team", "max_by(groups, &max_by(members, &age).age).team", "sort_by(groups, &min_by(members, &age).age)[-1].team",
         "map(&sort_by(members, &age)[*].age, groups)", "sort_by(groups, &length(sort_by(members, &age)))[*].team", "min_by(groups, &sum(map(&age, sort_by(members, &age)))).team",
@@ -436,6 +436,8 @@ fn size_sweep(rep: &mut Report, args: &Args, ev: &Evaluator, strict: &Opts) {
         "max_by(recs, &id).id", "min_by(recs, &s).s", "reverse(desc)", "reverse(str)", "sum(desc)", "avg(saw)", "max(saw)", "min(desc)", "max(strs)", "min(strs)", "length(desc)",
         "length(str)", "length(obj)", "join('-', strs)", "keys(obj)", "values(obj)", "merge(obj, obj2)", "map(&k, recs)", "map(&[id], recs)[-1]", "contains(desc, `0`)",
         "contains(str, 'yz')", "starts_with(str, 'ab')", "ends_with(str, 'z')", "to_array(desc)[-1]", "not_null(none, desc)[0]", "to_string(saw)",
+        // printing values WIDE in containers (many records / arrays / objects side by side, nothing deep)
+        "to_string(recs)", "to_string(groups)", "to_string(obj)", "to_string(strs)", "to_string([recs, recs])", "to_string(pairs)",
     ];
     let mut sizes: Vec<usize> = (0..=130).collect();
     sizes.extend_from_slice(&[255, 256, 257, 511, 512, 513, 1000, 1023, 1024, 1025]);
@@ -462,6 +464,7 @@ fn size_sweep(rep: &mut Report, args: &Args, ev: &Evaluator, strict: &Opts) {
             "recs": (0..n).map(|i| json!({"id": i, "k": (n - i) / 3, "s": word(i)})).collect::<Vec<Value>>(),
             "str": (0..n).map(|i| ["a", "b", "é", "日", "y", "z"][i % 6]).collect::<String>(),
             "obj": obj, "obj2": obj2,
+            "pairs": (0..n).map(|i| json!([i, []])).collect::<Vec<Value>>(),
             "groups": (0..n.min(40)).map(|g| json!({"team": format!("t{}", g), "members": (0..1 + (g * 7) % 5).map(|m| json!({"age": (g * 31 + m * 17) % 23})).collect::<Vec<Value>>()})).collect::<Vec<Value>>(),
         });
         let input = rcvar_of(&doc);
@@ -473,7 +476,10 @@ fn size_sweep(rep: &mut Report, args: &Args, ev: &Evaluator, strict: &Opts) {
             let ok = match (&want, &got) {
                 (Err(e), _) if matches!(e.kind, ErrKind::Unconstrained(_)) => true,
                 (Ok(x), Ok(Ok(g))) => value_of(g).map_or(false, |g| match name {
-                    "to_string" => g.as_str().and_then(|t| parse_json(t, 64).ok()).map_or(false, |p| val_eq(&p, &doc["saw"], 0.0)),
+                    "to_string" => g.as_str().and_then(|t| parse_json(t, 64).ok()).map_or(false, |p| {
+                        let arg = text.trim_start_matches("to_string(").trim_end_matches(')');
+                        if arg == "[recs, recs]" { val_eq(&p, &json!([doc["recs"], doc["recs"]]), 0.0) } else { val_eq(&p, &doc[arg], 0.0) }
+                    }),
                     "avg" | "sum" => val_eq(x, &g, 1e-9),
                     _ => canon_value(x) == canon_value(&g) || (matches!(name, "max" | "min") && val_eq(x, &g, 0.0)),
                 }),
@@ -501,9 +507,11 @@ fn size_sweep(rep: &mut Report, args: &Args, ev: &Evaluator, strict: &Opts) {
 /// 0..8 bytes of ASCII: anything that looks at text a word / a block at a time meets every alignment and
 /// every block boundary with every character width.
 fn string_sweep(rep: &mut Report, args: &Args, ev: &Evaluator, strict: &Opts) {
-    const EXPRS: [&str; 16] = [
+    const EXPRS: [&str; 24] = [
         "length(s)", "length(t)", "[length(s), length(t), length(u)]", "reverse(s)", "contains(s, c)", "contains(t, c)", "starts_with(t, p)", "ends_with(s, c)", "ends_with(u, c)",
         "join('', [s, t]) | length(@)", "join(s, ['x', 'y']) | length(@)", "sort([t, s, u])[0] | length(@)", "max([s, t]) == t", "to_string(s) | length(@)", "s == t", "map(&length(@), [s, t, u, p, c])",
+        // the search is LONGER than the subject and extends it (never a prefix / suffix / part of something shorter)
+        "starts_with(s, t)", "ends_with(s, u)", "starts_with(c, s)", "ends_with(c, s)", "contains(c, s)", "contains(s, t)", "ends_with(c, t)", "starts_with(p, s)",
     ];
     let mut sizes: Vec<usize> = (0..=40).collect();
     sizes.extend_from_slice(&[63, 64, 65, 127, 128, 129, 255, 256, 257, 511, 512, 513, 1023, 1024, 1025, 1200, 2047, 2048, 2049, 3000, 4095, 4096, 4097, 5000, 8191, 8192, 8193]);
